@@ -1,6 +1,6 @@
 """Confirm and evaluate seeded breaking changes.
 
-  seeded_eval.py import <Cxx>          copy /tmp/seed-Cxx/out/mutN -> /verif/seeded/Cxx-mN (patch.diff, demo.py, meta.json)
+  seeded_eval.py import <Cxx> [round]  copy /tmp/seed-Cxx/out/mutN -> /verif/seeded/Cxx-mN (round 2: /tmp/seed2-Cxx -> Cxx-nN)
   seeded_eval.py confirm <id>...       in scratch worktrees of /repo HEAD: patch applies; demo passes clean / fails mutated;
                                        the test commands of meta.json give the same summary with and without the patch
   seeded_eval.py check <id> [tier] [--props C01,C12]
@@ -43,13 +43,13 @@ def rm_worktree(d):
     shutil.rmtree(d, ignore_errors=True)
 
 
-def cmd_import(prop):
-    src = Path(f"/tmp/seed-{prop}/out")
+def cmd_import(prop, rnd=1):
+    src = Path(f"/tmp/seed{'' if rnd == 1 else rnd}-{prop}/out")
     n = 0
     for m in sorted(src.glob("mut*")):
         if not (m / "patch.diff").exists():
             continue
-        dst = SEEDED / f"{prop}-{m.name.replace('mut', 'm')}"
+        dst = SEEDED / f"{prop}-{m.name.replace('mut', 'm' if rnd == 1 else 'n')}"
         dst.mkdir(parents=True, exist_ok=True)
         for f in ("patch.diff", "demo.py", "meta.json"):
             if (m / f).exists():
@@ -158,7 +158,7 @@ def cmd_check(sid, tier="quick", props=None):
 if __name__ == "__main__":
     a = sys.argv[1:]
     if a[0] == "import":
-        cmd_import(a[1])
+        cmd_import(a[1], int(a[2]) if len(a) > 2 else 1)
     elif a[0] == "confirm":
         cmd_confirm(a[1:])
     elif a[0] == "check":
